@@ -242,6 +242,8 @@ struct Stats {
     compiled: usize,
     not_compiled: usize,
     configs_built: usize,
+    mutants_tried: usize,
+    mutants_accepted: usize,
     configs_refused: Vec<String>,
     functions_seen: usize,
     functions_runnable: usize,
@@ -541,9 +543,21 @@ fn one_run(
     Ok(Some(RunOut { gas_left, n_steps }))
 }
 
-fn run_program(name: &str, program: &Program, thorough: bool, seed: u64, stats: &mut Stats, failures: &mut Vec<Failure>) {
-    let crate_prefix = format!("{name}::");
-    for (solver, linear) in [("linear", true), ("nonlinear", false)] {
+/// `mutant`: the program is an accepted mutant of a compiled one - linear configuration only, fewer
+/// vectors and budgets, counted separately.
+fn run_program(
+    name: &str,
+    crate_prefix: &str,
+    program: &Program,
+    mutant: bool,
+    thorough: bool,
+    seed: u64,
+    stats: &mut Stats,
+    failures: &mut Vec<Failure>,
+) -> bool {
+    let mut any_built = false;
+    let configs: &[(&'static str, bool)] = if mutant { &[("linear", true)] } else { &[("linear", true), ("nonlinear", false)] };
+    for (solver, linear) in configs.iter().copied() {
         let cfg = MetadataComputationConfig {
             linear_gas_solver: linear,
             linear_ap_change_solver: linear,
@@ -560,23 +574,32 @@ fn run_program(name: &str, program: &Program, thorough: bool, seed: u64, stats: 
         let (builder, runner) = match built {
             Ok(Ok(x)) => x,
             Ok(Err(e)) => {
-                stats.configs_refused.push(format!("{name}[{solver}]: {}", e.chars().take(120).collect::<String>()));
+                if !mutant {
+                    stats.configs_refused.push(format!("{name}[{solver}]: {}", e.chars().take(120).collect::<String>()));
+                }
                 continue;
             }
             Err(p) => {
-                stats.configs_refused.push(format!("{name}[{solver}]: panic {} @ {}", p.chars().take(80).collect::<String>(), last_panic_location()));
+                if !mutant {
+                    stats.configs_refused.push(format!("{name}[{solver}]: panic {} @ {}", p.chars().take(80).collect::<String>(), last_panic_location()));
+                }
                 continue;
             }
         };
-        stats.configs_built += 1;
+        any_built = true;
+        if mutant {
+            stats.mutants_accepted += 1;
+        } else {
+            stats.configs_built += 1;
+        }
         let layout = layout_of(&builder);
         let cx = Ctx { program_name: name, solver, runner: &runner, builder: &builder, layout: &layout };
         for func in &program.funcs {
             let fname = func.id.to_string();
-            if !fname.starts_with(&crate_prefix) {
+            if !fname.starts_with(crate_prefix) {
                 continue;
             }
-            if linear {
+            if linear && !mutant {
                 stats.functions_seen += 1;
             }
             // user parameters
@@ -595,11 +618,11 @@ fn run_program(name: &str, program: &Program, thorough: bool, seed: u64, stats: 
             if !ok {
                 continue;
             }
-            if linear {
+            if linear && !mutant {
                 stats.functions_runnable += 1;
             }
             let mut rng = Rng(seed ^ fnv(&fname) ^ fnv(name));
-            let n_vectors = if shapes.is_empty() { 1 } else if thorough { 16 } else { 5 };
+            let n_vectors = if shapes.is_empty() { 1 } else if mutant { 3 } else if thorough { 16 } else { 5 };
             for v in 0..n_vectors {
                 let mut args = vec![];
                 let mut shown = vec![];
@@ -630,7 +653,7 @@ fn run_program(name: &str, program: &Program, thorough: bool, seed: u64, stats: 
                             budgets.push(used + 1);
                         }
                     }
-                    if stats.samples.len() < 8 && v == 1 {
+                    if stats.samples.len() < 8 && v == 1 && !mutant {
                         stats.samples.push(format!(
                             "{name}: {fname}({shown}) gas {large} [{solver}] -> {} steps, gas left {:?}",
                             out.n_steps,
@@ -645,7 +668,7 @@ fn run_program(name: &str, program: &Program, thorough: bool, seed: u64, stats: 
                         .filter(|t| builder.is_user_arg_type(&builder.type_long_id(t).generic_id))
                         .count();
                     // (SierraCasmRunner::run_function documents: "no other ref params")
-                    if v < 2 && user_rets <= 1 {
+                    if v < 2 && user_rets <= 1 && !mutant {
                         let r = catch(AssertUnwindSafe(|| {
                             runner.run_function_with_starknet_context(func, args.clone(), Some(large), StarknetState::default())
                         }));
@@ -695,12 +718,55 @@ fn run_program(name: &str, program: &Program, thorough: bool, seed: u64, stats: 
                 }
                 budgets.sort();
                 budgets.dedup();
-                let nb = if thorough { budgets.len() } else { budgets.len().min(6) };
+                let nb = if mutant { 2 } else if thorough { budgets.len() } else { budgets.len().min(6) };
                 for g in budgets.into_iter().rev().take(nb) {
                     if one_run(&cx, func, &args, &shown, g, stats, failures).is_err() {
                         break;
                     }
                 }
+            }
+        }
+    }
+    any_built
+}
+
+/// Accepted mutants of a compiled program must run to completion as well ("accepted => safe" does not
+/// depend on the program having come out of the Cairo compiler).
+fn run_mutants(name: &str, program: &Program, thorough: bool, seed: u64, out_dir: &str, stats: &mut Stats, failures: &mut Vec<Failure>) {
+    use h14lib::mutate;
+    let n = program.statements.len();
+    if n == 0 || n > 400 {
+        return;
+    }
+    let mut rng = Rng(seed ^ fnv(name) ^ 0x6d75);
+    let mut ms = mutate::enumerate(program, &mut rng, 0..n, true);
+    // declaration-level value edits and statement-level edits are both wanted: sample uniformly
+    let budget = if thorough { 120 } else { 10 };
+    let crate_prefix = format!("{name}::");
+    for _ in 0..budget {
+        if ms.is_empty() {
+            break;
+        }
+        let k = rng.below(ms.len() as u64) as usize;
+        let m = ms.swap_remove(k);
+        let Ok(q) = catch(AssertUnwindSafe(|| mutate::apply(program, &m))) else { continue };
+        // a function whose `signature.param_types` differs from the types of its `params` exists only
+        // as an in-memory Program (the felt252 deserialiser derives one from the other; the runner
+        // builds its entry code from the signature): not an input of the property
+        if q.funcs.iter().any(|f| f.signature.param_types.iter().ne(f.params.iter().map(|p| &p.ty))) {
+            continue;
+        }
+        stats.mutants_tried += 1;
+        let label = format!("{name}~{}", m.name());
+        let before = failures.len();
+        run_program(&label, &crate_prefix, &q, true, thorough, seed, stats, failures);
+        if failures.len() > before {
+            // keep the mutant itself for the replay
+            let path = format!("{out_dir}/mutant_{:x}.json", fnv(&label));
+            let _ = std::fs::write(&path, serde_json::to_string(&json!({"mutation": format!("{:?}", m), "source": name,
+                "program_json": serde_json::to_value(&q).unwrap_or(Value::Null)})).unwrap());
+            for f in failures[before..].iter_mut() {
+                f.what = format!("{} [accepted mutant, program in {}]", f.what, path);
             }
         }
     }
@@ -779,12 +845,15 @@ fn worker_main(batch_file: &str, result_file: &str) {
             }
         };
         stats.compiled += 1;
-        run_program(&name, &program, thorough, seed, &mut stats, &mut failures);
+        run_program(&name, &format!("{name}::"), &program, false, thorough, seed, &mut stats, &mut failures);
+        let out_dir = Path::new(result_file).parent().map(|p| p.to_string_lossy().to_string()).unwrap_or_else(|| ".".into());
+        run_mutants(&name, &program, thorough, seed, &out_dir, &mut stats, &mut failures);
         let _ = BigIntAsHex { value: BigInt::zero() };
     }
     let res = json!({
         "sources": stats.sources, "compiled": stats.compiled, "not_compiled": stats.not_compiled,
         "not_compiled_list": not_compiled,
+        "mutants_tried": stats.mutants_tried, "mutants_accepted": stats.mutants_accepted,
         "configs_built": stats.configs_built, "configs_refused": stats.configs_refused,
         "functions_seen": stats.functions_seen, "functions_runnable": stats.functions_runnable,
         "runs": stats.runs, "runs_ok": stats.runs_ok, "runs_success_value": stats.runs_success_value,
